@@ -16,7 +16,8 @@ answer. Choice families:
 WS_REQ = [' ', '  ', '\t', '\n', '\r\n', ' \n ']
 WS_INNER = [' ', '  ', '\t', '\n', '\r\n']
 COMMENTS = [' /* c */ ', ' -- c\n', ' /*+ h */ ', ' --+ h\n', ' # c\n', '/* c */', '\n-- c\n',
-            ' /* a\n b */ ', ' /* a *//* b */', ' -- a\n-- b\n', ' /* a */ -- b\n', ' /*+ h *//* c */ ']
+            ' /* a\n b */ ', ' /* a *//* b */', ' -- a\n-- b\n', ' /* a */ -- b\n', ' /*+ h *//* c */ ',
+            ' /* c *//*+ h */ ', ' /* c */ /*+ h */ ', ' -- c\n--+ h\n']
 # comments before the first / after the last token of a statement
 EDGE_COMMENTS = ['/* c */ ', '-- c\n', ' /* c */', ' -- c', ' /* a *//* b */', '\n-- c\n', ' /*+ h */', ' # c']
 CASES = ['lower', 'upper', 'title', 'alt']
@@ -183,7 +184,11 @@ class Builder:
     def func(self, k, depth, gap='req', ws=None):
         fn = self.pick(k + '.fn', ['count', 'coalesce', 'f', 'max'])
         self.emit(fn, 'name', gap, ws)
-        self.p('(', 'none')
+        sp = self.pick(k + '.sp', ['', ' ', '\n', '  '])
+        if sp:
+            self.p('(', 'opt', sp)
+        else:
+            self.p('(', 'none')
         n = self.pick(k + '.argc', [1, 0, 2, 'star'])
         if n == 'star':
             self.emit('*', 'op', 'opt')
@@ -440,6 +445,10 @@ class Builder:
             if self.pick(k + '.o2', [False, True]):
                 self.p(',', 'opt')
                 self.colref(k + '.o2c', 'p', 'opt', ' ')
+        if depth == 0 and self.pick(k + '.into', [False, True]):
+            self.kw('into')
+            self.emit('outfile', 'name')
+            self.string()
         if self.pick(k + '.limit', [False, True]):
             self.kw('limit')
             self.num('10')
@@ -490,6 +499,9 @@ class Builder:
         if self.pick(k + '.where', [True, False]):
             self.kw('where')
             self.cond(k + '.w', 1)
+        if self.pick(k + '.ret', [False, True]):
+            self.kw('returning')
+            self.name('id')
 
     def delete(self, k):
         self.kw('delete', cls='dml')
@@ -498,6 +510,9 @@ class Builder:
         if self.pick(k + '.where', [True, False]):
             self.kw('where')
             self.cond(k + '.w', 1)
+        if self.pick(k + '.ret', [False, True]):
+            self.kw('returning')
+            self.name('id')
 
     def create_table(self, k):
         self.kw('create', cls='ddl')
@@ -656,6 +671,7 @@ SEEDS = [
     ('update-2set-case', 'update', {'s.update.n': 2, 's.update.v1': 'case'}),
     ('delete-where', 'delete', {}),
     ('delete-in-subquery', 'delete', {'s.delete.w': 'insel'}),
+    ('update-returning', 'update', {'s.update.ret': True}),
     ('create-table', 'create_table', {}),
     ('create-table-3cols', 'create_table', {'s.create_table.n': 3, 's.create_table.ty0': 'varchar(10)',
                                             's.create_table.con0': 'primary key', 's.create_table.ty1': 'numeric(10, 2)',
